@@ -7,6 +7,7 @@
 package main
 
 import (
+	"bufio"
 	"bytes"
 	"fmt"
 	"io"
@@ -294,6 +295,8 @@ func main() {
 	queued(r, rnd)
 	failingSources(r, rnd)
 	parallelSessions(r, rnd)
+	streams(r, rnd)
+	r.Floor("stream_messages_decrypted+violations", int(r.Counter("stream_messages_decrypted"))+1000*r.ViolationCount(), 1500)
 	r.Floor("parallel_session_messages+violations", int(r.Counter("parallel_session_messages"))+30000*r.ViolationCount(), 30000)
 	r.Floor("encrypt_calls_with_a_failing_source", int(r.Counter("encrypt_calls_with_a_failing_source")), 500)
 	r.Floor("healthy_messages_after_failures", int(r.Counter("healthy_messages_after_failures")), 500)
@@ -803,4 +806,86 @@ func parallelSessions(r *vf.Run, rnd *rand.Rand) {
 		}(g)
 	}
 	wg.Wait()
+}
+
+// onlyReader hides every method of the wrapped reader but Read (a socket, a pipe: no ReadByte, no Len).
+type onlyReader struct{ r io.Reader }
+
+func (o onlyReader) Read(p []byte) (int, error) { return o.r.Read(p) }
+
+// streams: the receiver hands Decrypt ONE reader that carries the frames of several messages, one Decrypt call per
+// message (Decrypt ends a message at the first frame shorter than 1024 bytes and leaves the rest of the reader alone,
+// which is what lets a caller decrypt straight from a connection).  The reader is of the kinds a stream has: nothing but
+// Read, reads that return half of what was asked, data together with EOF, arbitrary chunks.  Every call must return its
+// message; nothing of the next message may be swallowed.
+func streams(r *vf.Run, rnd *rand.Rand) {
+	n := r.Pick(600, 10000)
+	kinds := []string{"only-read", "half", "data+eof", "chunks", "onebyte", "bytes.Reader", "bufio"}
+	for i := 0; i < n; i++ {
+		r.Eval()
+		var secret [32]byte
+		rnd.Read(secret[:])
+		ctl, err := crypto.NewSecureClientSessionFromSharedKey(secret)
+		if err != nil {
+			r.Inconclusive("session constructor failed")
+			return
+		}
+		_, a2c := refctl.SessionKeys(secret[:])
+		ref := &refctl.Framer{Key: a2c}
+		k := 2 + rnd.Intn(5)
+		var msgs [][]byte
+		var wire []byte
+		for j := 0; j < k; j++ {
+			size := []int{1, 17, 100, 1023, 1025, 2047, 2049, 3000, 5000}[rnd.Intn(9)] // never a multiple of 1024: the last frame ends the message
+			p := make([]byte, size)
+			rnd.Read(p)
+			msgs = append(msgs, p)
+			wire = append(wire, ref.SealFrames(p, nil)...)
+		}
+		kind := kinds[i%len(kinds)]
+		var src io.Reader = bytes.NewReader(wire)
+		switch kind {
+		case "only-read":
+			src = onlyReader{bytes.NewReader(wire)}
+		case "half":
+			src = iotest.HalfReader(bytes.NewReader(wire))
+		case "data+eof":
+			src = iotest.DataErrReader(bytes.NewReader(wire))
+		case "chunks":
+			src = &chunkReader{b: append([]byte(nil), wire...), next: func(int) int { return 1 + rnd.Intn(3000) }}
+		case "onebyte":
+			src = iotest.OneByteReader(bytes.NewReader(wire))
+		case "bufio":
+			src = bufio.NewReaderSize(onlyReader{bytes.NewReader(wire)}, 16+rnd.Intn(5000))
+		}
+		r.Distinct("stream_reader_kind", kind)
+		for j, want := range msgs {
+			var got []byte
+			var derr error
+			if p, text := vf.Recover(func() {
+				var d io.Reader
+				d, derr = ctl.Decrypt(src)
+				if d != nil {
+					got, _ = ioutil.ReadAll(d)
+				}
+			}); p {
+				r.Violation("stream:panic", "Decrypt panicked on a stream of several messages: "+text[:min(len(text), 300)], map[string]interface{}{"reader": kind, "message": j})
+				break
+			}
+			if derr != nil || !bytes.Equal(got, want) {
+				r.Violation("stream:reader="+kind+":message-lost-or-wrong", fmt.Sprintf("one %s reader carries the frames of %d messages; Decrypt call %d returns %d bytes (err=%v), the message has %d", kind, k, j+1, len(got), derr, len(want)),
+					map[string]interface{}{"secret": vf.Hex(secret[:]), "reader": kind, "message_lengths": lens(msgs), "call": j + 1})
+				break
+			}
+			r.Count("stream_messages_decrypted", 1)
+		}
+	}
+}
+
+func lens(m [][]byte) []int {
+	var out []int
+	for _, x := range m {
+		out = append(out, len(x))
+	}
+	return out
 }
